@@ -430,8 +430,25 @@ func mergeItems(items []Item) []Item {
 	return out
 }
 
-// DenValues: the values a constraint on path p is applied to at node i (a set).
+// DenValues: the values a constraint on path p is applied to at node i (a set). A node reached by
+// an inverse last step and the reference to it reached by a forward last step are one value ("a
+// value reachable by several routes is one value"): where the alternatives of a path end both ways,
+// node items are written as references.
 func (r *Ref) DenValues(p Path, i int) []Item {
+	items := r.denValues(p, i)
+	if fwd, inv := lastKinds(p); fwd && inv {
+		for k, it := range items {
+			if it.Node >= 0 {
+				v := r.G.Pool[r.refIndex(it.Node)].V
+				items[k] = Item{valueKey(v), -1, v, it.G}
+			}
+		}
+		items = mergeItems(items)
+	}
+	return items
+}
+
+func (r *Ref) denValues(p Path, i int) []Item {
 	g := r.G
 	switch x := p.(type) {
 	case PProp:
